@@ -11,6 +11,8 @@ V = "/verif"
 sys.path.insert(0, V)
 ap = argparse.ArgumentParser(); ap.add_argument("--units", default=""); ap.add_argument("--per", type=int, default=12); ap.add_argument("--jobs", type=int, default=6)
 ap.add_argument("--out", default=V + "/seeded/KILL.tsv"); ap.add_argument("--exclude", default="")
+ap.add_argument("--whole", default="", help="KILL.tsv of a per-unit run: re-run its survivors against the WHOLE check of the property (all units), one run per distinct mutant")
+ap.add_argument("--wtprefix", default="/var/tmp/mutwt_")
 a = ap.parse_args()
 os.environ["VERIF_REPO"] = "/repo"
 from vf.astvc import ast as A
@@ -63,7 +65,7 @@ def mutants(text, n, seed):
 
 WTS = []
 def get_wt(k):
-    wt = "/var/tmp/mutwt_%d" % k
+    wt = a.wtprefix + "%d" % k
     if not os.path.isdir(wt):
         subprocess.run(["git", "-C", "/repo", "worktree", "add", "--detach", wt, "HEAD"], capture_output=True)
     subprocess.run(["git", "-C", wt, "checkout", "-q", "--", "."]); subprocess.run(["git", "-C", wt, "reset", "-q", "--hard", subprocess.run(["git", "-C", "/repo", "rev-parse", "HEAD"], capture_output=True, text=True).stdout.strip()])
@@ -86,7 +88,7 @@ def run_one(job):
         env = dict(os.environ, VERIF_REPO=wt, VERIF_OUT="/var/tmp/kill_out_%s" % os.path.basename(wt))
         os.makedirs(env["VERIF_OUT"] + "/evidence", exist_ok=True); os.makedirs(env["VERIF_OUT"] + "/replays", exist_ok=True)
         try:
-            p = subprocess.run([V + "/check", pid, "--only", unit], capture_output=True, text=True, env=env, timeout=900, cwd=V)
+            p = subprocess.run([V + "/check", pid] + ([] if a.whole else ["--only", unit]), capture_output=True, text=True, env=env, timeout=900, cwd=V)
             rc = p.returncode; out = p.stdout
         except subprocess.TimeoutExpired:
             rc = 2; out = "TIMEOUT"
@@ -105,6 +107,21 @@ for pid, unit, rel, q in units:
     seed = int(hashlib.sha1(unit.encode()).hexdigest()[:8], 16)
     for m in mutants(text, a.per, seed):
         jobs.append((pid, unit, rel, q, rg, m))
+if a.whole:
+    surv = set()
+    for l in open(a.whole):
+        c = l.rstrip("\n").split("\t")
+        if len(c) >= 5 and c[4] == "SURVIVED":
+            surv.add((c[0], c[1], c[2], c[3]))
+    data_cache = {}
+    keep = {}
+    for j in jobs:
+        pid, unit, rel, q, (b, e), (ms, me, rep, desc) = j
+        d = data_cache.setdefault(rel, open(os.path.join("/repo", rel), "rb").read())
+        line = str(d[:b + ms].count(b"\n") + 1)
+        if (unit, rel, line, desc) in surv:
+            keep.setdefault((pid, rel, b + ms, rep), j)
+    jobs = list(keep.values())
 print("units", len(units), "mutants", len(jobs)); sys.stdout.flush()
 with ThreadPoolExecutor(a.jobs) as ex, open(a.out, "a") as f:
     for res in ex.map(run_one, jobs):
